@@ -431,9 +431,136 @@ func seedFor(name string) uint64 {
 	return 1 + (v*1000003+uint64(shard)*7919+stats.HashS(name)%100003)%(1<<31-1)
 }
 
+// coldStart: the very first use of the global registry in this process is concurrent - eight goroutines lint the
+// same few objects at once, before anything has listed, filtered or linted; then two lints are registered through
+// the public API and the first use after that is concurrent again. Every result set must be complete and equal
+// to what a later sequential run gives.
+func coldStart(rec *stats.Rec, co *gen.Corpus) (sig, msg string) {
+	var objs []engine.Case
+	for i := 0; i < 3 && i < len(co.Certs); i++ {
+		o := co.Certs[(i*131)%len(co.Certs)]
+		objs = append(objs, engine.Case{Kind: o.Kind, DER: o.DER, Base: o.Name})
+	}
+	if len(co.CRLs) > 0 {
+		objs = append(objs, engine.Case{Kind: gen.CRL, DER: co.CRLs[0].DER, Base: co.CRLs[0].Name})
+	}
+	if len(co.OCSPs) > 0 {
+		objs = append(objs, engine.Case{Kind: gen.OCSP, DER: co.OCSPs[0].DER, Base: co.OCSPs[0].Name})
+	}
+	old := runtime.GOMAXPROCS(8)
+	defer runtime.GOMAXPROCS(old)
+	for phase := 0; phase < 2; phase++ {
+		if phase == 1 {
+			for i := 0; i < 2; i++ {
+				lint.RegisterCertificateLint(&lint.CertificateLint{LintMetadata: lint.LintMetadata{Name: fmt.Sprintf("e_a_verif_cold_%d", i), Description: "cold start", Source: lint.Community},
+					Lint: func() lint.CertificateLintInterface { return coldLint{} }})
+			}
+		}
+		const W = 8
+		got := make([][]string, W)
+		counts := make([][]int, W)
+		panics := make([]string, W)
+		var wg sync.WaitGroup
+		start := make(chan struct{})
+		for w := 0; w < W; w++ {
+			wg.Add(1)
+			go func(w int) {
+				defer wg.Done()
+				defer func() {
+					if r := recover(); r != nil {
+						panics[w] = fmt.Sprint(r)
+					}
+				}()
+				<-start
+				for i := range objs {
+					o := objs[(i+w)%len(objs)]
+					d, n := lintCount(o, lint.GlobalRegistry())
+					got[w] = append(got[w], d)
+					counts[w] = append(counts[w], n)
+				}
+			}(w)
+		}
+		close(start)
+		wg.Wait()
+		rec.Eval()
+		rec.Class(fmt.Sprintf("cold_start_phase_%d", phase))
+		g := lint.GlobalRegistry()
+		want := map[gen.Kind]int{gen.Cert: len(g.CertificateLints().Lints()), gen.CRL: len(g.RevocationListLints().Lints()), gen.OCSP: len(g.OcspResponseLints().Lints())}
+		for w := 0; w < W; w++ {
+			if panics[w] != "" {
+				return "panic", fmt.Sprintf("first concurrent use of the global registry (phase %d): worker %d panicked: %s", phase, w, panics[w])
+			}
+			for i := range got[w] {
+				o := objs[(i+w)%len(objs)]
+				d, n := lintCount(o, g)
+				if d == "unparseable" {
+					continue
+				}
+				if counts[w][i] != want[o.Kind] || n != want[o.Kind] {
+					return "incomplete-result-set", fmt.Sprintf("first concurrent use of the global registry (phase %d): %s gets %d results concurrently, %d afterwards, for %d registered lints of its kind", phase, o.Base, counts[w][i], n, want[o.Kind])
+				}
+				if d != got[w][i] {
+					return "differs-from-sequential", fmt.Sprintf("first concurrent use of the global registry (phase %d): %s gives %s concurrently and %s afterwards", phase, o.Base, got[w][i], d)
+				}
+			}
+		}
+	}
+	return "", ""
+}
+
+type coldLint struct{}
+
+func (coldLint) CheckApplies(*x509.Certificate) bool { return true }
+func (coldLint) Execute(*x509.Certificate) *lint.LintResult {
+	return &lint.LintResult{Status: lint.Pass}
+}
+
+// lintCount: digest and number of results.
+func lintCount(c engine.Case, reg lint.Registry) (string, int) {
+	switch c.Kind {
+	case gen.Cert:
+		if o, ok := gen.ParseCert(c.DER); ok {
+			rs := zlint.LintCertificateEx(o, reg)
+			return engine.Digest(rs), len(rs.Results)
+		}
+	case gen.CRL:
+		if o, ok := gen.ParseCRL(c.DER); ok {
+			rs := zlint.LintRevocationListEx(o, reg)
+			return engine.Digest(rs), len(rs.Results)
+		}
+	default:
+		if o, ok := gen.ParseOCSP(c.DER); ok {
+			rs := zlint.LintOcspResponseEx(o, reg)
+			return engine.Digest(rs), len(rs.Results)
+		}
+	}
+	return "unparseable", 0
+}
+
+// TestColdStart is the cold start alone (a leg of C01: a complete result set also on the first, concurrent use).
+func TestColdStart(t *testing.T) {
+	prop := os.Getenv("VERIF_PROPERTY")
+	if prop == "" {
+		prop = "C10"
+	}
+	rec := stats.New(prop)
+	t.Cleanup(rec.Flush)
+	if sig, msg := coldStart(rec, gen.LoadCorpus()); msg != "" {
+		if rec.Report("c10", sig, msg, program{}) {
+			t.Fatalf("cold start: %s: %s", sig, msg)
+		}
+	}
+	rec.NT(stats.HashS("cold-start", os.Getenv("VERIF_SHARD")))
+}
+
 func TestC10(t *testing.T) {
 	rec := newRec(t)
 	co := gen.LoadCorpus()
+	if sig, msg := coldStart(rec, co); msg != "" {
+		if rec.Report("c10", sig, msg, program{}) {
+			t.Fatalf("c10 cold start: %s: %s", sig, msg)
+		}
+	}
 	names := lint.GlobalRegistry().Names()
 	shard, nshards := stats.Shard()
 	procs := []int{1, 2, 4, 16}[shard%4]
